@@ -251,6 +251,9 @@ def cmdSimCtx (c : SimCtx) (t : List String) : SimCtx × String :=
     | some (.keyboard buf ie l), some bs => ({ c with sim := { s with dev := s.dev.setKeyboard (.keyboard (buf ++ bs) ie l) } }, "ok")
     | some (.keyboard ..), none => bad
     | _, _ => (c, "nokb")
+  | ["poison", which] =>
+    -- a poisoned (but free) buffer lock: the devices recover the guard, nothing changes
+    if which = "kb" ∨ which = "ds" then (c, "ok") else bad
   | ["lock", which, v] => match (if v = "2" then some true else pb v) with   -- 2 = shared guard: try_write fails just the same
     | some v => match setLock s which v with
       | some s' => ({ c with sim := s' }, "ok")
